@@ -124,6 +124,17 @@ CLAIMED: dict[str, tuple[str, str, str, str, str]] = {
         "abstract evaluation of the range-check functions on a boundary-complete probe set + entry-point must-call",
         "DESIGN §5 C17",
     ),
+    "C09": (
+        "other",
+        "A checked proof sketch: the chaotic-iteration theorem (textbook) gives order-independence and equality with the "
+        "path-based solution once its obligations hold; each obligation is decided on cfg/analysis.py and cfg/cfg.py: "
+        "worklist completeness (edges read to recompute a block = inverse of edges re-queued on change, for both "
+        "include_unreachable modes, extracted by abstractly interpreting one loop iteration), gen/kill truth tables of both "
+        "transfer functions, meet/join/eq shapes, extremal start values, change detection and initial queueing.",
+        "Trusted: the theorem itself; ast parser; gsa interpreter fragments (outside them UNDECIDED). No CFG is sampled.",
+        "dataflow-framework obligations: abstract interpretation of one worklist iteration + set-algebra truth tables",
+        "DESIGN §5 C09",
+    ),
 }
 
 NOT_APPLICABLE: dict[str, str] = {
